@@ -7,25 +7,36 @@ open DSymVerif DSymVerif.Proto
 namespace DrvC14
 open DSymVerif.Inv DSymVerif.SpecC14
 
-/-- model payload of one `abelian_invariants` call: `-` when an intermediate leaves ±2^62
-    (excluded from the correspondence, DESIGN §5.6) -/
-def modelTok (n : Nat) (rels : List (List Int)) : String × Bool :=
+/-- model payload of one `abelian_invariants` call and the largest intermediate absolute value.
+    Payload `-` when an intermediate leaves ±2^62 (excluded from the model comparison, DESIGN §5.6). -/
+def modelTok (n : Nat) (rels : List (List Int)) : String × Nat :=
   let r := abelianInvariantsB n rels
-  if r.2 ≥ safeBound then ("-", true) else
+  if r.2 ≥ safeBound then ("-", r.2) else
   match r.1 with
-  | .ok l => (encNats l, false)
-  | .panic => ("PANIC", false)
-  | .err => ("DIVERGE", false)
+  | .ok l => (encNats l, r.2)
+  | .panic => ("PANIC", r.2)
+  | .err => ("DIVERGE", r.2)
+
+/-- the `isize` computation cannot hold some intermediate value -/
+def overflows (bound : Nat) : Bool := bound > 9223372036854775807
 
 def inDomain (n : Nat) (rels : List (List Int)) : Bool := rels.all (wordInRange n)
 
-def specOne (n : Nat) (rels : List (List Int)) (out : Option (List Nat)) (ovfAllowed : Bool) : String :=
+def specOne (n : Nat) (rels : List (List Int)) (out : Option (List Nat)) : String :=
   if !inDomain n rels then
     -- letters outside ±1..±n: not a presentation on n generators; the property says nothing
     ok
   else match out with
-    | none => if ovfAllowed then ok else fail "panicked-or-unparsable-inside-the-domain"
+    | none => fail "panic-inside-the-domain"
     | some o => check (clauses n rels o)
+
+/-- a failure on an input whose intermediates do not fit `isize` gets its own clause name
+    (known finding F-C14-overflow); `outside` = input outside the property's domain (large entries):
+    there the case is excluded instead (DESIGN §5.6). -/
+def withOverflow (verdict : String) (bound : Nat) (outside : Bool) : String :=
+  if verdict != ok && overflows bound then
+    (if outside then ok else fail "machine-integer-overflow")
+  else verdict
 
 def parseVariants : Nat → P (List (String × List (List Int)))
   | 0 => pure []
@@ -41,9 +52,9 @@ def handler : Handler := fun op inp out =>
   | "ainv" | "ainv_big" =>
     match run (do let n ← P.nat; let r ← P.intss; pure (n, r)) inp with
     | some (n, rels) =>
-      let (m, excluded) := modelTok n rels
+      let (m, bound) := modelTok n rels
       let o := if out == #["PANIC"] then none else run P.nats out
-      (m, specOne n rels o (op == "ainv_big" && excluded))
+      (m, withOverflow (specOne n rels o) bound (op == "ainv_big"))
     | none => bad
   | "meta" =>
     match run (do
@@ -55,24 +66,27 @@ def handler : Handler := fun op inp out =>
     | some (n, base, vs) =>
       let all := base :: vs.map (·.2)
       let ms := all.map (fun r => modelTok n r)
-      let m := if ms.any (·.2) then "-" else joinToks (toString all.length :: ms.map (·.1))
-      match (if out == #["PANIC"] then none else run P.natss out) with
-      | none => (m, fail "panicked-or-unparsable-inside-the-domain")
-      | some os =>
-        if os.length ≠ all.length then (m, fail "wrong-number-of-results") else
-        match os with
-        | [] => (m, fail "wrong-number-of-results")
-        | o0 :: rest =>
-          let baseVerdict := specOne n base (some o0) false
-          if baseVerdict != ok then (m, baseVerdict) else
-          -- every variant is a presentation of a group with the same abelianisation: same list
-          match (vs.zip rest).find? (fun p => p.2 != o0) with
-          | some p => (m, fail s!"result-changed-by-{p.1.1}")
-          | none =>
-            -- rotations and conjugates have literally the same exponent sums
-            let rowsOk := vs.all (fun v =>
-              !(v.1 == "rotate" || v.1 == "conjugate") || relMatrix n v.2 == relMatrix n base)
-            (m, check [("rotate-conjugate-keep-exponent-sums", rowsOk)])
+      let bound := ms.foldl (fun b x => max b x.2) 0
+      let m := if ms.any (·.1 == "-") then "-" else joinToks (toString all.length :: ms.map (·.1))
+      let verdict : String :=
+        match (if out == #["PANIC"] then none else run P.natss out) with
+        | none => fail "panic-inside-the-domain"
+        | some os =>
+          if os.length ≠ all.length then fail "wrong-number-of-results" else
+          match os with
+          | [] => fail "wrong-number-of-results"
+          | o0 :: rest =>
+            let baseVerdict := specOne n base (some o0)
+            if baseVerdict != ok then baseVerdict else
+            -- every variant presents a group with the same abelianisation: same list
+            match (vs.zip rest).find? (fun p => p.2 != o0) with
+            | some p => fail s!"result-changed-by-{p.1.1}"
+            | none =>
+              -- rotations and conjugates have literally the same exponent sums
+              let rowsOk := vs.all (fun v =>
+                !(v.1 == "rotate" || v.1 == "conjugate") || relMatrix n v.2 == relMatrix n base)
+              check [("rotate-conjugate-keep-exponent-sums", rowsOk)]
+      (m, withOverflow verdict bound false)
     | none => bad
   | "rav" =>
     match run (do let n ← P.nat; let raw ← P.ints; let red ← P.ints; pure (n, raw, red)) inp with
